@@ -27,6 +27,9 @@ def labels_direct(sh, rng):
     vals = [0., max(0., t - eps), t, min(1., t + eps), 1.]
     bf = rng.choice(vals, size=n, p=[.15, .2, .25, .2, .2])
     m = int(rng.integers(0, n + 2))
+    if rng.random() < 0.25:
+        m = float(rng.choice([0.5, 1.5, 2.4, 2.5, 3.5, 4.4]))          # a real-valued minimum: a run qualifies iff its length >= m
+        sh.note('fractional_min_n_cycles')
     case = {'burst_fraction': bf, 'burst_fraction_threshold': t, 'min_n_cycles': m}
     run_labels(sh, case)
 
